@@ -358,11 +358,12 @@ class Hier:
 
     def behind_bare_base(self, i):
         """Classes below i that are reached through a bare generic base edge (their variables get implicit
-        parameters although the queried class is parametrised)."""
+        parameters although the queried class is parametrised) or through an empty variadic parametrisation
+        ``X[()]`` -- the two base spellings adaptix is known not to resolve."""
         out = set()
         for b in self.classes[i]["bases"]:
             j = b["cls"]
-            if b["args"] is None and self.params(j):
+            if (b["args"] is None and self.params(j)) or (b["args"] == [] and self.params(j) == [TVT]):
                 out |= {j, *self.ancestors(j)}
             out |= self.behind_bare_base(j)
         return out
@@ -828,7 +829,7 @@ def _check_built(ctx, case, built):  # noqa: C901, PLR0912, PLR0915
             return "no_trail"
         if n not in exp:
             return "unknown_field"
-        return "via_bare_base" if (defs[n] in tainted or h.touches_bare_base(exp[n])) else "regular"
+        return "via_unresolved_base" if (defs[n] in tainted or h.touches_bare_base(exp[n])) else "regular"
 
     def viol(vkind, discr, detail, field="-"):
         org = "-" if field == "-" else origin(field)
@@ -1352,7 +1353,7 @@ def explore(ctx: runner.Ctx):
     if ctx.shard == 0:
         for case in fixed_cases():
             check_case(ctx, case)
-    ctx.given(st_case(), lambda case: check_case(ctx, case), ctx.budget(6000, 150000))
+    ctx.given(st_case(), lambda case: check_case(ctx, case), ctx.budget(6000, 160000))
 
 
 RULE = ("cases = generated (hierarchy of <= 5 generic classes of one model kind, query parametrisation or bare, "
